@@ -24,7 +24,7 @@ func init() {
 					"sf.AllowNonTLSRelay": "allowNonTLS", "parsedRelayURL.Scheme": "scheme"}},
 		},
 		skels: []skelSpec{
-			{"skel_ProxyPolls", "broker", "IPC.ProxyPolls", `RequestOffer|CheckProxyRelayPattern`},
+			{lean: "skel_ProxyPolls", dir: "broker", name: "IPC.ProxyPolls", calls: `RequestOffer|CheckProxyRelayPattern`},
 		},
 	})
 }
